@@ -34,6 +34,7 @@ type Event struct {
 	Par     [][]int         `json:"par"`
 	Tab     []int           `json:"tab"`
 	Blk     [][]int         `json:"blk"`
+	KV      []int           `json:"kv"` // key variant per table: block indices are named block + 100 * variant
 	Refs    [][]interface{} `json:"refs"`
 	Objs    Objs            `json:"objs"`
 	Crashed bool            `json:"crashed"`
@@ -49,7 +50,7 @@ type Event struct {
 }
 
 func newEvent(op, mode string) *Event {
-	e := &Event{Op: op, Mode: mode, Par: [][]int{}, Tab: []int{}, Blk: [][]int{}, Refs: [][]interface{}{}, Unknown: []string{}}
+	e := &Event{Op: op, Mode: mode, Par: [][]int{}, Tab: []int{}, Blk: [][]int{}, KV: []int{}, Refs: [][]interface{}{}, Unknown: []string{}}
 	e.Objs.norm()
 	return e
 }
@@ -67,6 +68,7 @@ type repoDesc struct {
 	Par    [][]int
 	Tab    []int
 	Blk    [][]int // table u (1-based) -> abstract blocks
+	KV     []int   // table u (1-based) -> key variant
 	Refs   []refDecl
 	Before Objs // non-commit objects to copy from the template (+ all commits)
 	TTL    string
@@ -76,7 +78,7 @@ type repoDesc struct {
 
 func (d *repoDesc) event() *Event {
 	e := newEvent("repo", d.Mode)
-	e.N, e.Par, e.Tab, e.Blk = d.N, d.Par, d.Tab, d.Blk
+	e.N, e.Par, e.Tab, e.Blk, e.KV = d.N, d.Par, d.Tab, d.Blk, d.KV
 	e.TTL, e.Zone, e.Near = d.TTL, d.Zone, d.Near
 	for _, r := range d.Refs {
 		e.Refs = append(e.Refs, []interface{}{r.Kind, r.C, r.State})
@@ -85,7 +87,7 @@ func (d *repoDesc) event() *Event {
 }
 
 func descFromEvent(e *Event) (*repoDesc, error) {
-	d := &repoDesc{Mode: e.Mode, N: e.N, Par: e.Par, Tab: e.Tab, Blk: e.Blk, Before: e.Objs, TTL: e.TTL, Zone: e.Zone, Near: e.Near}
+	d := &repoDesc{Mode: e.Mode, N: e.N, Par: e.Par, Tab: e.Tab, Blk: e.Blk, KV: e.KV, Before: e.Objs, TTL: e.TTL, Zone: e.Zone, Near: e.Near}
 	for _, r := range e.Refs {
 		if len(r) != 3 {
 			return nil, fmt.Errorf("bad ref %v", r)
@@ -98,12 +100,40 @@ func descFromEvent(e *Event) (*repoDesc, error) {
 	return d, nil
 }
 
-func universeOf(blk [][]int) (*Universe, error) {
-	m := map[int][]int{}
+func universeOf(blk [][]int, kv []int) (*Universe, error) {
+	m, v := map[int][]int{}, map[int]int{}
 	for i, b := range blk {
 		m[i+1] = b
+		if i < len(kv) {
+			v[i+1] = kv[i]
+		}
 	}
-	return BuildUniverse(m)
+	return BuildUniverse(m, v)
+}
+
+// keyVariants: in two families out of three, one or two tables get a twin that lists the same blocks under
+// another primary key (same block objects, block indices of its own).
+func keyVariants(rng *rand.Rand, blk [][]int) ([][]int, []int) {
+	kv := make([]int, len(blk))
+	if rng.Intn(3) == 0 {
+		return blk, kv
+	}
+	for n := 1 + rng.Intn(2); n > 0; n-- {
+		blk = append(blk, blk[rng.Intn(len(kv))])
+		kv = append(kv, 1)
+	}
+	// twins of one table would be one table
+	seen := map[string]bool{}
+	var ob [][]int
+	var ok []int
+	for i := range blk {
+		key := fmt.Sprint(blk[i], kv[i])
+		if !seen[key] {
+			seen[key] = true
+			ob, ok = append(ob, blk[i]), append(ok, kv[i])
+		}
+	}
+	return ob, ok
 }
 
 // randomTables draws m distinct tables over full blocks 1..k and tail blocks.
@@ -138,8 +168,8 @@ var gcRepos int
 
 var refKinds = []string{"head", "tag", "remote", "txn"}
 
-func randomRepo(rng *rand.Rand, blk [][]int, mode string) *repoDesc {
-	d := &repoDesc{Mode: mode, Blk: blk}
+func randomRepo(rng *rand.Rand, blk [][]int, kv []int, mode string) *repoDesc {
+	d := &repoDesc{Mode: mode, Blk: blk, KV: kv}
 	d.N = 10 + rng.Intn(21)
 	if mode != "lib" && rng.Intn(2) == 0 {
 		// the on-disk store behaves differently once a listing runs over more than a hundred keys
@@ -170,8 +200,13 @@ func randomRepo(rng *rand.Rand, blk [][]int, mode string) *repoDesc {
 		}
 		d.Par = append(d.Par, ps)
 		t := 1 + rng.Intn(m)
-		if rng.Intn(3) == 0 {
+		switch rng.Intn(6) {
+		case 0, 1:
 			t = 1 + rng.Intn(min(m, 3))
+		case 2:
+			// the twins (if any) are the last tables: popular too, so that a twin and its original both have
+			// live and dead commits
+			t = m - rng.Intn(min(m, 2))
 		}
 		d.Tab = append(d.Tab, t)
 	}
@@ -248,8 +283,8 @@ func randomRepo(rng *rand.Rand, blk [][]int, mode string) *repoDesc {
 			if inPresent[b] || rng.Intn(5) == 0 {
 				blocks[b] = true
 			}
-			if inPresent[b] || rng.Intn(5) == 0 {
-				bidx[b] = true
+			if !absent[t] || rng.Intn(5) == 0 {
+				bidx[BIdx(b, kv[t-1])] = true
 			}
 		}
 	}
@@ -491,7 +526,7 @@ func Record(args []string) error {
 			if err != nil {
 				return err
 			}
-			u, err := universeOf(d.Blk)
+			u, err := universeOf(d.Blk, d.KV)
 			if err != nil {
 				return err
 			}
@@ -509,10 +544,11 @@ func Record(args []string) error {
 	rng := rand.New(rand.NewSource(*seed))
 	var u *Universe
 	var blk [][]int
+	var kv []int
 	for i := 0; i < *n; i++ {
 		if i%10 == 0 { // a fresh family of tables every ten repositories
-			blk = randomTables(rng, 6+rng.Intn(5), 5+rng.Intn(4))
-			if u, err = universeOf(blk); err != nil {
+			blk, kv = keyVariants(rng, randomTables(rng, 6+rng.Intn(5), 5+rng.Intn(4)))
+			if u, err = universeOf(blk, kv); err != nil {
 				return err
 			}
 		}
@@ -523,7 +559,7 @@ func Record(args []string) error {
 				mode = "gc"
 			}
 		}
-		d := randomRepo(rng, blk, mode)
+		d := randomRepo(rng, blk, kv, mode)
 		evs, err := execute(u, d, *dir)
 		if err != nil {
 			return fmt.Errorf("repository %d: %v", i, err)
